@@ -314,6 +314,40 @@ def attribute_order(ctx):
                             break
 
 
+def default_ns_attribute_values(ctx):
+    """Attribute VALUES are not names: an unprefixed value stays what it is whether the document binds its namespace
+    to a prefix or makes it the default namespace (on the root or further in).  Attribute wildcards of a typed model
+    and of generic elements, both handlers."""
+    import dataclasses
+    from typing import Dict, List, Optional
+
+    clazz = dataclasses.make_dataclass("DnsAttrs", [
+        ("rest", Dict[str, str], dataclasses.field(default_factory=dict, metadata={"type": "Attributes"})),
+        ("any", List[object], dataclasses.field(default_factory=list, metadata={"type": "Wildcard", "namespace": "##any"}))],
+        namespace={"Meta": type("Meta", (), {"namespace": "urn:d"})})
+    xctx = XmlContext()
+    for val in ("plain", "two words", "http://example.com/x", "x:y", ""):   # (no value uses a DECLARED prefix: those are read as names)
+        spellings = [
+            f'<d:DnsAttrs xmlns:d="urn:d" k="{val}"><d:item k="{val}"><d:sub j="{val}"/></d:item></d:DnsAttrs>',
+            f'<DnsAttrs xmlns="urn:d" k="{val}"><item k="{val}"><sub j="{val}"/></item></DnsAttrs>',
+            f'<d:DnsAttrs xmlns:d="urn:d" k="{val}"><item xmlns="urn:d" k="{val}"><sub j="{val}"/></item></d:DnsAttrs>',
+            f'<DnsAttrs xmlns="urn:d" xmlns:d="urn:d" k="{val}"><d:item k="{val}"><sub j="{val}"/></d:item></DnsAttrs>',
+        ]
+        ref = None
+        for text in spellings:
+            for h in ("native", "lxml"):
+                ctx.case(("dns-attr-value", val, text, h))
+                try:
+                    cur = ("ok", XmlParser(context=xctx, handler=hb.HANDLERS[h]).from_string(text, clazz))
+                except Exception as ex:  # noqa: BLE001
+                    cur = ("exc", type(ex).__name__)
+                if ref is None:
+                    ref = (cur, text)
+                elif cur != ref[0]:
+                    ctx.violation(f"the same infoset spelled with a default namespace parses differently ({h}): {text} gives {cur[1]!r}; {ref[1]} gives {ref[0][1]!r}"[:900],
+                                  {"text": text, "other": ref[1], "handler": h})
+
+
 def has_qualified_qname(doc) -> bool:
     """Selector part of F14: the document carries a namespace-qualified QName value or xsi:type."""
     for _n, atoms in doc["attrs"]:
@@ -351,6 +385,7 @@ def run(ctx):
     padded_values(ctx)
     xinclude_text(ctx)
     attribute_order(ctx)
+    default_ns_attribute_values(ctx)
 
 
 def replay(ctx, doc):
